@@ -138,6 +138,18 @@ Theorem C10_linked_cloud_negative_cutoff_refuted : exists cfg samples a,
 Proof. exact linked_tag_spec_needs_cutoff. Qed.
 Print Assumptions C10_linked_cloud_negative_cutoff_refuted.
 
+(* names and barcodes are identified per sample (the ids of the model are interned (sample key, text)
+   pairs; /repo keys its tables by (sample, name) since ef2ae7a).  With one id for the same-named reads of
+   two samples the alignment of the first sample gets the second sample's decision (H2 in phase set 107)
+   although its own read decides H1 in phase set 7: *)
+Theorem C10_bare_read_name_tables_refuted :
+  exists cfg samples a s0 r0,
+    nth_error samples 0 = Some s0 /\ snd s0 = [r0] /\ r_name r0 = a_name a /\
+    tag_aln cfg (prepare cfg samples) a = (Some 2, Some 107, Some 30) /\
+    decide (phaseinfo (fst s0)) (ploidy cfg) [r0] = Some (0%nat, 30, 7).
+Proof. exact bare_name_tables_refuted. Qed.
+Print Assumptions C10_bare_read_name_tables_refuted.
+
 (* ---- 2. swap symmetry ------------------------------------------------------------------------ *)
 
 (* Permuting the haplotype columns of phase set bs in the variant table (new column j = old column
